@@ -1006,18 +1006,34 @@ var g = &grammar{
 			expr: &actionExpr{
 				pos: position{line: 292, col: 18, offset: 9391},
 				run: (*parser).callonFieldModifier1,
-				expr: &choiceExpr{
+				expr: &seqExpr{
 					pos: position{line: 292, col: 19, offset: 9392},
-					alternatives: []interface{}{
-						&litMatcher{
-							pos:        position{line: 292, col: 19, offset: 9392},
-							val:        "required",
-							ignoreCase: false,
+					exprs: []interface{}{
+						&choiceExpr{
+							pos: position{line: 292, col: 19, offset: 9392},
+							alternatives: []interface{}{
+								&litMatcher{
+									pos:        position{line: 292, col: 19, offset: 9392},
+									val:        "required",
+									ignoreCase: false,
+								},
+								&litMatcher{
+									pos:        position{line: 292, col: 32, offset: 9405},
+									val:        "optional",
+									ignoreCase: false,
+								},
+							},
 						},
-						&litMatcher{
-							pos:        position{line: 292, col: 32, offset: 9405},
-							val:        "optional",
-							ignoreCase: false,
+						&notExpr{
+							pos: position{line: 292, col: 19, offset: 9392},
+							expr: &charClassMatcher{
+								pos:        position{line: 292, col: 19, offset: 9392},
+								val:        "[A-Za-z0-9_.]",
+								chars:      []rune{'_', '.'},
+								ranges:     []rune{'A', 'Z', 'a', 'z', '0', '9'},
+								ignoreCase: false,
+								inverted:   false,
+							},
 						},
 					},
 				},
@@ -1205,6 +1221,17 @@ var g = &grammar{
 											val:        "oneway",
 											ignoreCase: false,
 										},
+										&notExpr{
+											pos: position{line: 321, col: 44, offset: 10291},
+											expr: &charClassMatcher{
+												pos:        position{line: 321, col: 44, offset: 10291},
+												val:        "[A-Za-z0-9_.]",
+												chars:      []rune{'_', '.'},
+												ranges:     []rune{'A', 'Z', 'a', 'z', '0', '9'},
+												ignoreCase: false,
+												inverted:   false,
+											},
+										},
 										&ruleRefExpr{
 											pos:  position{line: 321, col: 53, offset: 10300},
 											name: "__",
@@ -1312,10 +1339,26 @@ var g = &grammar{
 					expr: &choiceExpr{
 						pos: position{line: 349, col: 22, offset: 11099},
 						alternatives: []interface{}{
-							&litMatcher{
-								pos:        position{line: 349, col: 22, offset: 11099},
-								val:        "void",
-								ignoreCase: false,
+							&seqExpr{
+								pos: position{line: 349, col: 22, offset: 11099},
+								exprs: []interface{}{
+									&litMatcher{
+										pos:        position{line: 349, col: 22, offset: 11099},
+										val:        "void",
+										ignoreCase: false,
+									},
+									&notExpr{
+										pos: position{line: 349, col: 22, offset: 11099},
+										expr: &charClassMatcher{
+											pos:        position{line: 349, col: 22, offset: 11099},
+											val:        "[A-Za-z0-9_.]",
+											chars:      []rune{'_', '.'},
+											ranges:     []rune{'A', 'Z', 'a', 'z', '0', '9'},
+											ignoreCase: false,
+											inverted:   false,
+										},
+									},
+								},
 							},
 							&ruleRefExpr{
 								pos:  position{line: 349, col: 31, offset: 11108},
@@ -1441,48 +1484,64 @@ var g = &grammar{
 			expr: &actionExpr{
 				pos: position{line: 374, col: 17, offset: 11682},
 				run: (*parser).callonBaseTypeName1,
-				expr: &choiceExpr{
+				expr: &seqExpr{
 					pos: position{line: 374, col: 18, offset: 11683},
-					alternatives: []interface{}{
-						&litMatcher{
-							pos:        position{line: 374, col: 18, offset: 11683},
-							val:        "bool",
-							ignoreCase: false,
+					exprs: []interface{}{
+						&choiceExpr{
+							pos: position{line: 374, col: 18, offset: 11683},
+							alternatives: []interface{}{
+								&litMatcher{
+									pos:        position{line: 374, col: 18, offset: 11683},
+									val:        "bool",
+									ignoreCase: false,
+								},
+								&litMatcher{
+									pos:        position{line: 374, col: 27, offset: 11692},
+									val:        "byte",
+									ignoreCase: false,
+								},
+								&litMatcher{
+									pos:        position{line: 374, col: 36, offset: 11701},
+									val:        "i16",
+									ignoreCase: false,
+								},
+								&litMatcher{
+									pos:        position{line: 374, col: 44, offset: 11709},
+									val:        "i32",
+									ignoreCase: false,
+								},
+								&litMatcher{
+									pos:        position{line: 374, col: 52, offset: 11717},
+									val:        "i64",
+									ignoreCase: false,
+								},
+								&litMatcher{
+									pos:        position{line: 374, col: 60, offset: 11725},
+									val:        "double",
+									ignoreCase: false,
+								},
+								&litMatcher{
+									pos:        position{line: 374, col: 71, offset: 11736},
+									val:        "string",
+									ignoreCase: false,
+								},
+								&litMatcher{
+									pos:        position{line: 374, col: 82, offset: 11747},
+									val:        "binary",
+									ignoreCase: false,
+								},
+							},
 						},
-						&litMatcher{
-							pos:        position{line: 374, col: 27, offset: 11692},
-							val:        "byte",
-							ignoreCase: false,
-						},
-						&litMatcher{
-							pos:        position{line: 374, col: 36, offset: 11701},
-							val:        "i16",
-							ignoreCase: false,
-						},
-						&litMatcher{
-							pos:        position{line: 374, col: 44, offset: 11709},
-							val:        "i32",
-							ignoreCase: false,
-						},
-						&litMatcher{
-							pos:        position{line: 374, col: 52, offset: 11717},
-							val:        "i64",
-							ignoreCase: false,
-						},
-						&litMatcher{
-							pos:        position{line: 374, col: 60, offset: 11725},
-							val:        "double",
-							ignoreCase: false,
-						},
-						&litMatcher{
-							pos:        position{line: 374, col: 71, offset: 11736},
-							val:        "string",
-							ignoreCase: false,
-						},
-						&litMatcher{
-							pos:        position{line: 374, col: 82, offset: 11747},
-							val:        "binary",
-							ignoreCase: false,
+						&notExpr{
+							pos: position{line: 374, col: 18, offset: 11683},
+							expr: &charClassMatcher{
+								pos:        position{line: 374, col: 18, offset: 11683},
+								val:        "[A-Za-z0-9_.]",
+								chars:      []rune{'_', '.'},
+								ranges:     []rune{'A', 'Z', 'a', 'z', '0', '9'},
+								ignoreCase: false,
+								inverted:   false,
+							},
 						},
 					},
 				},
@@ -1890,18 +1949,34 @@ var g = &grammar{
 			expr: &actionExpr{
 				pos: position{line: 432, col: 17, offset: 13313},
 				run: (*parser).callonBoolConstant1,
-				expr: &choiceExpr{
+				expr: &seqExpr{
 					pos: position{line: 432, col: 18, offset: 13314},
-					alternatives: []interface{}{
-						&litMatcher{
-							pos:        position{line: 432, col: 18, offset: 13314},
-							val:        "true",
-							ignoreCase: false,
+					exprs: []interface{}{
+						&choiceExpr{
+							pos: position{line: 432, col: 18, offset: 13314},
+							alternatives: []interface{}{
+								&litMatcher{
+									pos:        position{line: 432, col: 18, offset: 13314},
+									val:        "true",
+									ignoreCase: false,
+								},
+								&litMatcher{
+									pos:        position{line: 432, col: 27, offset: 13323},
+									val:        "false",
+									ignoreCase: false,
+								},
+							},
 						},
-						&litMatcher{
-							pos:        position{line: 432, col: 27, offset: 13323},
-							val:        "false",
-							ignoreCase: false,
+						&notExpr{
+							pos: position{line: 432, col: 18, offset: 13314},
+							expr: &charClassMatcher{
+								pos:        position{line: 432, col: 18, offset: 13314},
+								val:        "[A-Za-z0-9_.]",
+								chars:      []rune{'_', '.'},
+								ranges:     []rune{'A', 'Z', 'a', 'z', '0', '9'},
+								ignoreCase: false,
+								inverted:   false,
+							},
 						},
 					},
 				},
